@@ -8,15 +8,23 @@ for d in sorted(glob.glob('/verif/seeded/*')):
         continue
     m = json.load(open(mp))
     note = m.get('needs_to_manifest', '').replace('\n', ' ')
-    note = re.sub(r'\s+', ' ', note)[:230]
+    note = re.sub(r'\s+', ' ', note)[:200]
     cr = m.get('check_run', {})
+    cmd = cr.get('cmd', '')
+    mo = re.search(r'try_mutant\.sh (\S+) \S+ \S+patch\.diff ?(.*)$', cmd)
+    how = ('`./check %s %s`' % (mo.group(1), mo.group(2) or '--tier quick')) if mo else ''
     if cr.get('detected'):
-        det = 'caught by ' + ', '.join(sorted(set(v['harness'] for v in cr['violations'])))
+        det = 'caught by ' + ', '.join(sorted(set(v['harness'] for v in cr['violations']))[:3]) + ' (' + how + ')'
     elif cr:
-        det = 'NOT caught (' + (cr.get('why') or '; '.join(cr.get('inconclusive', []))[:120] or 'no violation') + ')'
+        det = 'NOT caught: ' + (cr.get('why') or '; '.join(cr.get('inconclusive', []))[:160] or 'no violation')
     else:
         det = 'not run'
-    rows.append('| %s | %s | %s | %s |' % (m['id'], m['breaks_property'], note.replace('|', '/'), det.replace('|', '/')))
-print('| seeded change | property | what it changes / what it needs to manifest | result of `./check <property> --tier quick` on the mutated tree |')
-print('|---|---|---|---|')
+    if m.get('note'):
+        det += ' -- ' + m['note']
+    rh = m.get('recheck_on_head')
+    if rh and 'detected' in rh:
+        det += ' [re-run on HEAD %s: %s]' % (rh.get('head', ''), 'caught' if rh['detected'] else 'not caught')
+    rows.append('| %s | %s | %s |' % (m['id'], note.replace('|', '/'), det.replace('|', '/')))
+print('| seeded change | what it changes / what it needs to manifest (first 200 characters of note.txt) | result on the mutated tree |')
+print('|---|---|---|')
 print('\n'.join(rows))
